@@ -151,7 +151,9 @@ Sprintf(f, i, args, a, out) ==
   ELSE IF f[i] # 37 THEN Sprintf(f, i + 1, args, a, Append(out, f[i]))
   ELSE IF i + 1 > Len(f) THEN [ok |-> FALSE, s |-> out]
   ELSE IF f[i + 1] = 37 THEN Sprintf(f, i + 2, args, a, Append(out, 37))
-  ELSE IF a > Len(args) THEN [ok |-> FALSE, s |-> out]
+  ELSE IF a > Len(args)           \* a verb without an operand is spelled out: %!d(MISSING)
+    THEN (IF f[i + 1] \in {100, 115, 118, 102, 116, 113, 120} THEN Sprintf(f, i + 2, args, a, out \o <<37, 33, f[i + 1]>> \o <<40, 77, 73, 83, 83, 73, 78, 71, 41>>)
+          ELSE [ok |-> FALSE, s |-> out])
   ELSE LET x == VerbStr(f[i + 1], args[a])
        IN IF ~x.ok THEN [ok |-> FALSE, s |-> out] ELSE Sprintf(f, i + 2, args, a + 1, out \o x.s)
 
